@@ -488,3 +488,5 @@ B('C02.ldap-decoder-typeerror-escapes', ['C02'], [(P + 'tls/ldap.py', "        e
 B('C14.asdict-decodes-bytes', ['C14'], [(P + 'ssh/key.py', "    def host_key_asdict(self):\n        known_hosts = six.ensure_text(base64.b64encode(self.key_bytes), 'ascii')\n",
   "    def host_key_asdict(self):\n        known_hosts = six.ensure_text(base64.b64encode(self.key_bytes), 'ascii')\n        type(self).parse_exact_size(self.key_bytes)\n")],
   mention=['C14.R17'])
+# a parsable class with a plain initialiser and private state only needs a rendering of its own
+B('C14.language-tag-without-rendering', ['C14'], [(P + 'common/classes.py', "    def _asdict(self):\n", "    def _as_text(self):\n")], mention=['C14.R18'])
